@@ -13,7 +13,7 @@ PROPS = ("C17",)
 
 
 def plan(tier, seed):
-    return ec.plan_e2e(seed, 17, MIX, 170 if tier == "quick" else 1700)
+    return ec.plan_e2e(seed, 17, MIX, 170 if tier == "quick" else 1700, nwcap=12 if tier == "quick" else 24)
 
 
 def nontrivial(run, I):
